@@ -133,6 +133,11 @@ def _out_item(stream, it):
     m = re.fullmatch(r"unsigned\((.*)\)", it, re.S)
     if m:
         return "OUT_NUM(%s, (unsigned)(%s));" % (stream, m.group(1))
+    m = re.fullmatch(r"CSTR\((.*)\)", it, re.S)
+    if m:                                   # a std::string valued expression (marked by an earlier rule)
+        return "OUT_CSTR(%s, %s);" % (stream, m.group(1))
+    if '"' in it:                           # an expression yielding a string literal, e.g. (c ? "L" : "")
+        return "OUT_STR(%s, %s);" % (stream, it)
     return "OUT_VAL(%s, %s);" % (stream, it)
 
 
